@@ -18,6 +18,7 @@ var c16BerTags = []struct {
 }{
 	{0x01, "boolean", "bool", "scalar"},
 	{0x02, "integer", "int", "scalar"},
+	{0x03, "bit_string", "bits", "bytes"},
 	{0x04, "octet_string", "raw", "bytes"},
 	{0x05, "null", "null", "scalar"},
 	{0x0c, "utf8_string", "utf8", "scalar"},
@@ -29,8 +30,8 @@ var c16BerTags = []struct {
 
 func (x *c16) asn1() *c16Format {
 	f := &c16Format{Name: "asn1_ber", Pkg: "format/asn1", Syms: map[string]map[string]bool{"class": {}, "tag": {}}}
-	rl := x.r.Rule("C16.asn1.length", "asn1_ber: the length octets are one U8; bit 8 clear = short form (the low 7 bits), 0x80 = indefinite, otherwise the low 7 bits count the following length bytes; the value signalling `indefinite` is not a possible short-form length; content is limited to length*8 bits", 6)
-	rr := x.r.Rule("C16.asn1.row", "asn1_ber: identifier octet is U2 class + U1 form + tag; universal tags boolean/integer/octet string/null/utf8/printable/ia5/sequence/set have their X.690 numbers, a Sym, and an arm reading the content as X.690 says (length bytes)", 12)
+	rl := x.r.Rule("C16.asn1.length", "asn1_ber: the length octets are one U8; bit 8 clear = short form (the low 7 bits), 0x80 = indefinite, otherwise the low 7 bits count the following length bytes; the value signalling `indefinite` is not a possible short-form length; content is limited to length*8 bits; the member loop of an indefinite-length value looks for the 00 00 end-of-contents octets and exactly those 16 bits are consumed after it", 8)
+	rr := x.r.Rule("C16.asn1.row", "asn1_ber: identifier octet is U2 class + U1 form + tag; universal tags boolean/integer/bit string/octet string/null/utf8/printable/ia5/sequence/set have their X.690 numbers, a Sym, and an arm reading the content as X.690 says (length bytes; boolean 0 -> false, else true; integers above 8 octets through the big-integer reader; bit string = unused-bit count + 8*(length-1)-unused bits); the tag number is U5 or, for 31, base-128 digits", 16)
 
 	root := x.decodeRootOf(f.Pkg)
 	if root == nil {
@@ -121,6 +122,7 @@ func (x *c16) asn1() *c16Format {
 		rr.Undecided("identifier:maps", vpos, "class / universal tag Sym maps not resolved")
 		return f
 	}
+	x.asn1TagNumber(rr, tagOps, vpos)
 	lenFn := c16FnArg(*lenOp, 1)
 	sentinel, hasSentinel := x.asn1Length(rl, lenFn)
 
@@ -165,13 +167,19 @@ func (x *c16) asn1() *c16Format {
 	tagOrig := tagCell
 	var formOrig ssa.Value = form.Call
 	stable := map[ssa.Value]bool{tagOrig: true, ssa.Value(class.Call): true, formOrig: true, ssa.Value(lenOp.Call): true}
-	bfl := c16FactsOpt(body, nil, &c16FlowOpt{
+	bopt := &c16FlowOpt{
 		Stable: stable,
 		Track: func(cond ssa.Value) bool {
 			ef, ok := c16EqOf(cond, true)
 			return ok && stable[c16Origin(ef.X)]
 		},
-	})
+	}
+	bfl := c16FactsOpt(body, nil, bopt)
+	if hasSentinel {
+		x.asn1EndOfContents(rl, body, bopt, lenOp.Call, sentinel)
+	} else {
+		rl.Undecided("indefinite:end-marker", vpos, "the value signalling the indefinite form is not known")
+	}
 	if bfl.Overflow {
 		rr.Undecided("content", x.p.Rel(body.Pos()), "too many paths in the content switch")
 		return f
@@ -255,6 +263,32 @@ func (x *c16) asn1() *c16Format {
 			case "bool":
 				if len(ard) != 1 || !isU(ard[0], 8) || ard[0].Field != "value" {
 					msg = "expected one U8 named value, found " + c16OpsStr(ard)
+				} else {
+					x.asn1BoolSym(rr, ard[0])
+				}
+			case "bits":
+				// X.690 8.6.2: initial octet = number of unused bits, then the bits
+				if len(ard) < 2 || !isU(ard[0], 8) {
+					msg = "expected the unused-bit count octet then the bits, found " + c16OpsStr(ard)
+					break
+				}
+				want := len8.add(linC(-8)).add(linA("$1").mulC(-1))
+				nv := 0
+				for _, o := range ard[1:] {
+					switch {
+					case o.Kind == "Raw" && o.Field == "value":
+						nv++
+						if !o.Bits.eq(want) {
+							msg = fmt.Sprintf("the bits are read as %s, expected 8*(length-1) - unused = %s", o.Bits, want)
+						}
+					case o.Kind == "Raw" && o.Bits.eq(linA("$1")):
+						// the unused bits
+					default:
+						msg = "unexpected read " + o.Kind + "(" + o.Bits.String() + ")"
+					}
+				}
+				if nv != 1 && msg == "" {
+					msg = "no raw read named value"
 				}
 			case "int":
 				n := 0
@@ -268,6 +302,7 @@ func (x *c16) asn1() *c16Format {
 				if n == 0 {
 					msg = "no signed read of 8*length bits named value"
 				}
+				x.asn1IntWidth(rr, ard, lenOp.Call, pos)
 			case "raw":
 				if len(ard) != 1 || ard[0].Kind != "Raw" || !ard[0].Bits.eq(len8) || ard[0].Field != "value" {
 					msg = "expected 8*length raw bits named value, found " + c16OpsStr(ard)
@@ -399,7 +434,7 @@ func (x *c16) asn1Length(rl *fw.Rule, fn *ssa.Function) (int64, bool) {
 	case multi:
 		rl.Ok("length:indefinite", pos, "indefinite form signalled out of band")
 	case !hasSentinel:
-		rl.Fail("length:indefinite", pos, "the 0x80 (indefinite) form is not distinguished")
+		rl.Fail("length:indefinite-form", pos, "the 0x80 (indefinite) form is not distinguished")
 	default:
 		rl.Check(sentinel < 0 || sentinel > 127, "length:indefinite", pos, "indefinite marker is not a short-form length",
 			fmt.Sprintf("the length decoder returns %d for the indefinite form (0x80), which is also the definite short-form length %d: zero-length primitives are rejected as \"primitive with indefinite length\" and empty SEQUENCE/SET swallow their siblings and read an end marker that is not there", sentinel, sentinel))
